@@ -729,6 +729,7 @@ def _atom(s, op, a, b):
 def A(s):
     """hand-written (oracle) atom; simple `a<b` / `a==b` spellings get their structure registered
     so that the order axioms apply to them too"""
+    s = respell(s)
     if s not in ATOM_STRUCT:
         if s.count("<") == 1 and "==" not in s and " in " not in s and " is " not in s:
             a, b = s.split("<")
@@ -973,3 +974,86 @@ def f_subst(f, fn):
     if k == "exists":
         return ("exists", f[1], f_subst(f[2], fn))
     return f
+
+
+# ====================================================================== oracle spelling
+def respell(s):
+    """Oracle strings may be written with the view spelling of a mapping iteration
+    (`each(D.items())[0]`, `each(D.items())[1]`, `each(D.values())`, `each(D.keys())`, binder
+    `D.items()`); the engine records every such loop over D itself (see Interp._mapping_view).
+    This rewrites a complete expectation string into the engine's spelling:
+        each(D.items())[0] -> each(D)      each(D.items())[1] -> D[each(D)]
+        each(D.keys())     -> each(D)      each(D.values())   -> D[each(D)]
+        for each(D.items()) / EXISTS[D.items()] -> ... D"""
+    if not isinstance(s, str) or ("items()" not in s and "values()" not in s
+                                  and "keys()" not in s):
+        return s
+    # innermost-first: repeatedly rewrite the first each(...) whose argument has no view inside
+    # other than at its very end
+    guard = 0
+    while guard < 200:
+        guard += 1
+        i = _find_view_each(s)
+        if i is None:
+            break
+        start, inner_end, view = i
+        inner = s[start + 5:inner_end]              # inside each( ... )
+        base = inner[:-(len(view) + 3)]              # strip .items()
+        j = inner_end + 1                            # after ')'
+        primes = ""
+        while j < len(s) and s[j] == "'":
+            primes += "'"
+            j += 1
+        e = f"each({base}){primes}"
+        if view == "items":
+            if s.startswith("[0]", j):
+                rep, j = e, j + 3
+            elif s.startswith("[1]", j):
+                rep, j = f"{base}[{e}]", j + 3
+            else:
+                rep = e
+        elif view == "values":
+            rep = f"{base}[{e}]"
+        else:
+            rep = e
+        s = s[:start] + rep + s[j:]
+    # binders
+    for view in (".items()", ".keys()", ".values()"):
+        s = s.replace(view + "]", "]").replace(view + "']", "']").replace(view + "'']", "'']")
+    return s
+
+
+def _find_view_each(s):
+    pos = 0
+    best = None
+    while True:
+        k = s.find("each(", pos)
+        if k < 0:
+            break
+        depth = 0
+        end = None
+        for j in range(k + 4, len(s)):
+            if s[j] == "(":
+                depth += 1
+            elif s[j] == ")":
+                depth -= 1
+                if depth == 0:
+                    end = j
+                    break
+        if end is None:
+            break
+        inner = s[k + 5:end]
+        for view in ("items", "keys", "values"):
+            if inner.endswith(f".{view}()"):
+                # innermost: prefer the candidate whose inner text contains no other view-each
+                if _find_view_each(inner) is None:
+                    return (k, end, view)
+        pos = k + 5
+    return best
+
+
+def respell_loop(s):
+    for view in (".items()", ".keys()", ".values()"):
+        if s.endswith(view):
+            return respell(s[:-len(view)])
+    return respell(s)
